@@ -44,7 +44,7 @@ pub(crate) struct World {
 /// afterwards with `set_limits` — a symbolic scalar inside a struct that is moved (memcpy) makes every later
 /// read of that struct a symbolic byte-array read and multiplies the formula size by ~15.
 pub(crate) fn vk_world(qcap: usize, lfu: TinyLFU) -> World {
-    unsafe { vs::MONITOR = true; vs::EDGES_ON = crate::cache::vk_cfg::LOCK_EDGES; }
+    unsafe { vs::MONITOR = crate::cache::vk_cfg::LOCK_EDGES; vs::EDGES_ON = crate::cache::vk_cfg::LOCK_EDGES; }
     let stats = stk::vk_fresh();
     let config = cfk::vk_config(1, qcap, 1, 2);
     let store = sk::vk_store(stats.clone());
@@ -864,5 +864,6 @@ fn sweep_end_to_end(with_stale: bool, tick_sec: u64) {
     vs::edge_covers();
     core::mem::forget(w);
 }
+
 
 
